@@ -899,7 +899,7 @@ RULE = (
     "file:line, next thread) at every context switch). distinct_nontrivial "
     "counts signatures of non-trivial runs only.")
 
-TIERS = {'quick': 12000, 'thorough': 300000}
+TIERS = {'quick': 10000, 'thorough': 300000}
 WALL_CAP = {'quick': 240, 'thorough': 3300}
 DET_SAMPLE = {'quick': 24, 'thorough': 120}
 LEVEL = 'exploration'
